@@ -2,6 +2,7 @@
 import BV.C18.Model
 import BV.C18.Explain
 import BV.C18.Trickle
+import BV.C18.Push
 namespace BV.C18.Driver
 open BV.C18
 
@@ -144,8 +145,37 @@ def handleHs2 : List String → String
     | _, _, _, _, _, _, _, _ => "bad-op"
   | _ => "bad-op"
 
+def parsePushOp? (s : String) : Option Push.Op :=
+  match s.splitOn ":" with
+  | ["gb", b, e] => do pure (.getBlocks (← b.toNat?) (← e.toNat?))
+  | ["gh", b, e] => do pure (.getHeaders (← b.toNat?) (← e.toNat?))
+  | ["addr", n] => do pure (.addr (← n.toNat?))
+  | ["a2", n] => do let n ← n.toNat?; if n ≤ 1000 then pure (.addrV2 n) else none
+  | ["rej", c] => do let c ← c.toNat?; if c < 256 then pure (.reject c) else none
+  | ["qe", i] => do pure (.queueEnc (← i.toNat?))
+  | _ => none
+
+def pushOutName : Push.Out → String
+  | .getBlocks b s => s!"b({b},{s})" | .getHeaders b s => s!"h({b},{s})"
+  | .addr n => s!"addr({n})" | .addrV2 n => s!"addrv2({n})"
+  | .reject c => s!"reject(tx/{c})" | .pong i => s!"pong({i})"
+
+def handlePush : List String → String
+  | [ours, theirs, ops] =>
+    match ours.toNat?, theirs.toNat?, (if ops == "-" then some [] else (ops.splitOn ",").mapM parsePushOp?) with
+    | some ours, some theirs, some ops =>
+      if min ours theirs ≤ 60000 ∨ ours ≥ 2^31 ∨ theirs ≥ 2^31 then "bad-op" else
+      let (outs, rets) := Push.run (min ours theirs) ⟨none, none⟩ ops
+      let rs := rets.map (fun (op, v) => match op with
+        | .addr _ => s!"addr={v}/true/true"
+        | _ => s!"a2={v}/true")
+      s!"w={joinOrDash (outs.map pushOutName)} ret={joinOrDash rs} bytes=ok"
+    | _, _, _ => "bad-op"
+  | _ => "bad-op"
+
 def handle : List String → String
   | "trace" :: rest => handleTrace rest
+  | "push" :: rest => handlePush rest
   | "hs2" :: rest => handleHs2 rest
   | ["inv", n, k, d, b] =>
     match n.toNat?, k.toNat?, d.toNat?, b.toNat? with
